@@ -116,7 +116,19 @@ def _methods(case, model):
     return ms
 
 
+def _big(case):
+    """a training table in which every (bucket, class) pair holds an exact multiple of 256 examples: the first rows of the drawn table
+    repeated 256 times (plain arrays, no zero weight)"""
+    m = min(len(case["X"]), 6)
+    rep = 256
+    return dict(case, X=[list(r) for r in case["X"][:m]] * rep, labels=None if case["labels"] is None else list(case["labels"][:m]) * rep,
+                ynoise=list(case["ynoise"][:m]) * rep, w=None if case["w"] is None else list(case["w"][:m]) * rep,
+                xkind="array", ykind="array", zero_w=[], index_perm=list(range(m * rep)), two_callers=False)
+
+
 def check(case):
+    if case.get("big"):
+        case = _big(case)
     X, y, w, Q = _build(case)
     n, d = X.shape
     classifier = case["classifier"]
@@ -316,7 +328,7 @@ def check(case):
     labels = ["clf" if classifier else "reg", "binner=" + case["binner"]["kind"], "est=" + case["estimator"]["kind"],
               "buckets=1" if nb == 1 else ("buckets<=4" if nb <= 4 else "buckets>4"), "unseen-bucket" if unseen else "all-seen",
               "weights" if w is not None else "no-weights", "n_jobs=%s" % case["n_jobs"], "missing-class" if missing_class else "no-missing-class",
-              "train:" + facts["xkind"], "query:" + facts["qkind"], "y:" + facts["ykind"], "two-callers" if case.get("two_callers") else "one-caller", "verbose" if case.get("verbose") else "silent", "zero-weights" if (w is not None and (w == 0).any()) else "no-zero-weight"]
+              "train:" + facts["xkind"], "query:" + facts["qkind"], "y:" + facts["ykind"], "two-callers" if case.get("two_callers") else "one-caller", "verbose" if case.get("verbose") else "silent", "zero-weights" if (w is not None and (w == 0).any()) else "no-zero-weight", "rows>=512:class-counts-multiple-of-256" if case.get("big") else "rows<=50"]
     return Outcome(labels, nb >= 2 and (unseen or missing_class or w is not None or case["n_jobs"] not in (None, 1)))
 
 
@@ -358,6 +370,6 @@ def _cases(draw, tier="quick"):
 
 
 CLAUSES = [
-    Clause("piecewise", check, strategy=lambda tier: with_sk(_cases(tier)), quick=1600, thorough=25000, quick_shards=16,
+    Clause("piecewise", check, strategy=lambda tier: st.builds(lambda c, b: dict(c, big=(b == 0)), with_sk(_cases(tier)), st.integers(0, 24)), quick=1600, thorough=25000, quick_shards=16,
            doc="partition, local training sets, dispatch, n_jobs independence, probabilities"),
 ]
